@@ -24,6 +24,12 @@ func exprText(fset *token.FileSet, e ast.Expr) string {
 	return strings.Join(strings.Fields(b.String()), " ")
 }
 
+func cfgPrint(sb *strings.Builder, fset *token.FileSet, n ast.Node) {
+	var b bytes.Buffer
+	printer.Fprint(&b, fset, n)
+	sb.WriteString(b.String())
+}
+
 func leanStrLit(s string) string {
 	s = strings.ReplaceAll(s, "\\", "\\\\")
 	s = strings.ReplaceAll(s, "\"", "\\\"")
